@@ -506,6 +506,9 @@ func genModule(dir string, rnd *hx.Rand, files map[string]string) []string {
 		{name: "rtdep1", imports: []string{"rtfail", "mid3"}},
 		{name: "rtdep2", imports: []string{"rtdep1", "top"}},
 		{name: "rtdep3", imports: []string{"rtfail", "apex", "rtdep2"}},
+		{name: "rtdep4", imports: []string{"rtfail", "iso"}},
+		{name: "rtdep5", imports: []string{"rtfail", "util"}},
+		{name: "rtdep6", imports: []string{"rtdep4", "base"}},
 		// the same unexported object (same name, file name, line) used in dupa and unused in dupb
 		{name: "dupa", dup: 1},
 		{name: "dupb", dup: 2},
